@@ -1007,6 +1007,8 @@ class Interp:
 
     def call(self, func, args, kwargs, node=None, fr: Optional[Frame] = None):
         ctx = self.ctx
+        if isinstance(func, staticmethod):
+            func = func.__func__          # staticmethod objects are callable (Python >= 3.10) and call their function
         if isinstance(func, Closure):
             fi = FuncInfo(func.node, func.frame.fi.module, func.frame.fi.qualname + '.' + func.name,
                           owner=func.frame.fi.owner)
